@@ -25,7 +25,8 @@ type vfPolicyCase struct {
 	MaxCost     int64        `json:"max_cost"`
 	Pop         []vfResident `json:"population"`
 	In          vfResident   `json:"incoming"`
-	Noise       []uint64     `json:"noise,omitempty"` // other keys whose accesses share counters
+	Noise       []uint64     `json:"noise,omitempty"`  // other keys whose accesses share counters
+	Recost      []vfResident `json:"recost,omitempty"` // cost updates of resident keys applied before the judged decision
 }
 
 // vfDecision is what the judge needs to know about the state just before the decision.
@@ -218,11 +219,19 @@ func vfRunPolicyCase(c *vfPolicyCase) (st vfDecisionStats, sig, msg string) {
 			p.admit.Increment(n)
 		}
 	}
-	d := &vfDecision{MaxCost: c.MaxCost, Used: p.evict.used, Costs: map[uint64]int64{}, Est: map[uint64]int64{},
+	for _, r := range c.Recost {
+		p.Update(r.Key, r.Cost)
+	}
+	// Used: the sum of the resident keys' costs - that is the "remaining capacity" a newcomer has to fit in
+	d := &vfDecision{MaxCost: c.MaxCost, Costs: map[uint64]int64{}, Est: map[uint64]int64{},
 		InKey: c.In.Key, InCost: c.In.Cost, InEst: p.admit.Estimate(c.In.Key)}
 	for k, cost := range p.evict.keyCosts {
 		d.Costs[k] = cost
+		d.Used += cost
 		d.Est[k] = p.admit.Estimate(k)
+	}
+	if d.Used != p.evict.used {
+		return st, "C03/used-differs-from-sum-of-costs", fmt.Sprintf("before the decision: used=%d, sum of accounted costs %d", p.evict.used, d.Used)
 	}
 	_, wasResident := d.Costs[c.In.Key]
 	victims, added := p.Add(c.In.Key, c.In.Cost)
@@ -331,6 +340,15 @@ func vfGenPolicyCase(t *rapid.T) *vfPolicyCase {
 	c.MaxCost = sum + slack
 	if c.MaxCost <= 0 {
 		c.MaxCost = 1
+	}
+	// cost updates of residents before the decision (lowering frees room the newcomer may need; raising is capped by the slack)
+	if len(c.Pop) > 0 && rapid.IntRange(0, 2).Draw(t, "recost") == 0 {
+		n := rapid.IntRange(1, 3).Draw(t, "nrecost")
+		for i := 0; i < n; i++ {
+			r := c.Pop[rapid.IntRange(0, len(c.Pop)-1).Draw(t, "recostidx")]
+			nc := int64(rapid.IntRange(0, int(r.Cost)).Draw(t, "recostto"))
+			c.Recost = append(c.Recost, vfResident{Key: r.Key, Cost: nc})
+		}
 	}
 	c.In.Key = uint64(1000 + rapid.IntRange(0, 5).Draw(t, "inkey"))
 	if len(c.Pop) > 0 && rapid.IntRange(0, 9).Draw(t, "inresident") == 0 {
